@@ -52,6 +52,8 @@ TXNS = [
     {'description': 'AMZN Mktp US*7 NETFLIX', 'amount': 2025, 'date': date(2025, 1, 31), 'field': {'memo': 'x', 'code': 'x'}, 'source': 'Amex'},
     {'description': 'a.b-*  ', 'amount': 0, 'date': date(2025, 3, 2), 'field': {'memo': '  ', 'code': ' AB '}, 'source': 'Amex'},
     {'description': 'net', 'amount': 1e9, 'date': date(2024, 12, 1), 'field': {'memo': 'NET', 'code': 'net'}, 'source': 'NET'},
+    {'description': 'DISNEY+ (EU), STORE 7', 'amount': 7.0, 'date': date(2025, 12, 30), 'field': {'memo': 'A+B', 'code': '(x),y'}, 'source': 'Amex'},
+    {'description': 'DISNEY STORE 7', 'amount': 8.0, 'date': date(2024, 12, 30), 'field': {'memo': 'AB', 'code': 'xy'}, 'source': 'Chase'},
 ]
 
 ERRS = ['field.nope == "x"', 'rows[99].amt > 0', 'no_such_name', 'txn.nope == 1']
